@@ -68,9 +68,12 @@ class ProcResult:
         self.lines, self.rc, self.err = lines, rc, err
 
 
-def run_stream(cmd, text, env=None, timeout=600):
+def run_stream(cmd, text, env=None, timeout=600, _retry=2):
     try:
         p = subprocess.run(cmd, input=text, capture_output=True, text=True, env=env, timeout=timeout)
+        if p.returncode in (-15, -9) and _retry > 0 and "Sanitizer" not in p.stderr:
+            # killed from outside (not a result of the program): run again
+            return run_stream(cmd, text, env, timeout, _retry - 1)
         return ProcResult(p.stdout.splitlines(), p.returncode, p.stderr)
     except subprocess.TimeoutExpired as e:
         out = e.stdout.decode() if isinstance(e.stdout, bytes) else (e.stdout or "")
